@@ -266,7 +266,11 @@ def laplace(prog, ctx, det):
     else:
         running_sign(prog, ctx, det, R, A, DET, SUB, this)
     sub = prog.fn(M + 'Sub_Matrix')
-    cs = [(c['callee']['name'], show(strip_casts(c['args'][0]))) for c in calls(sub) if c.get('kind') == 'method' and c['callee'].get('inrepo')]
+    from ..symx import call_arg_terms
+    try:
+        cs = [(n_, str(a_[0]) if a_ else '') for n_, a_ in call_arg_terms(prog, sub, lambda c: c.get('kind') == 'method' and c['callee'].get('inrepo'))]
+    except Undecided:
+        cs = []
     oks = ('Delete_Row', sub.params[0]['name']) in cs and ('Delete_Column', sub.params[1]['name']) in cs
     ctx.decide(R, 'Sub_Matrix', sub, oks, 'Sub_Matrix(r,c) deletes row r and column c', 'Sub_Matrix calls %s' % cs)
 
@@ -275,36 +279,40 @@ def extraction(prog, ctx, inv, elim, scale):
     R = 'C05.d'
     # augmentation: W[i][j] = components[i][j]; W[i][j+N] = (i==j)
     w = elim[0][2]
-    aug_copy = aug_id = False
-    for e in all_exprs(inv):
-        if e.get('k') == 'Bin' and e['op'] == '=':
-            l = elem_index(e['lhs'])
-            if not l or l[0] != w:
-                continue
-            r = strip_casts(e['rhs'])
-            if r.get('k') == 'Index' and elem_index(r) and elem_index(r)[0] == 'components' or (r.get('k') == 'Index' and 'components' in show(r)):
-                ri = show(r).replace('this.', '')
-                if ri == 'components[%s][%s]' % (l[1], l[2]):
-                    aug_copy = True
-    # identity part: assignments of 1.0 / 0.0 under i==j to W[i][j+N]
-    ones = zeros = 0
-    for n, stack in enclosing(inv.body, lambda n: n.get('k') == 'Bin' and n['op'] == '=' and elem_index(n['lhs']) is not None
-                              and elem_index(n['lhs'])[0] == w and strip_casts(n['rhs']).get('k') == 'Lit'):
-        l = elem_index(n['lhs'])
-        conds = [s for s in stack if s['k'] == 'If']
-        if not conds:
-            continue
-        c = show(conds[-1]['cond']).replace(' ', '')
-        val = float(strip_casts(n['rhs'])['val']) if strip_casts(n['rhs']).get('val') else float(strip_casts(n['rhs'])['v'])
-        in_then = any(x is n for s2 in walk_stmts(conds[-1]['then']) for e in stmt_exprs(s2) for x in walk_expr(e))
-        eq = c in ('%s==%s' % (l[1], l[2].split('+')[0].strip()), '%s==%s' % (l[2].split('+')[0].strip(), l[1]))
-        if '+' in l[2] and eq:
-            if (val == 1.0 and in_then):
-                ones += 1
-            if (val == 0.0 and not in_then):
-                zeros += 1
-    ctx.decide(R, 'Inverse:augmentation', inv, aug_copy and ones == 1 and zeros == 1, 'work array is [M | I]',
-               'augmentation is not [M | I] (copy=%s, ones=%d, zeros=%d)' % (aug_copy, ones, zeros))
+    # the work array when the elimination sweep starts, from the summary of the loops before it, evaluated on every
+    # element for N = 1, 2, 3: left half = the matrix, right half = the identity
+    from ..symx import strict_ranges
+    outer_loop = elim[0][1]
+    probs = []
+    try:
+        sxa = Symx(prog, inv)
+        with strict_ranges():
+            sts = sxa.states_at(inv, outer_loop)
+            if len(sts) != 1:
+                raise Undecided('%d paths reach the elimination sweep' % len(sts))
+            warr = [v_ for v_ in sts[0].env.values() if isinstance(v_, Arr) and str(v_.name) == w]
+            if len(warr) != 1:
+                raise Undecided('work array `%s` has no summary' % w)
+            kk, ll = sp.symbols('k l', integer=True)
+            term = warr[0].read((kk, ll))
+        Nsym = Symbol('this.rows', integer=True, nonnegative=True)
+        Nsym2 = [x_ for x_ in term.free_symbols if str(x_) == 'this.rows']
+        C = Function('this.components', real=True)
+        for nv in (1, 2, 3):
+            for kv in range(nv):
+                for lv in range(2 * nv):
+                    t_ = term.subs({x_: nv for x_ in Nsym2}).subs({kk: kv, ll: lv})
+                    t_ = sp.simplify(t_) if not isinstance(t_, (sp.Integer, sp.Float)) else t_
+                    want = C(kv, lv) if lv < nv else sp.Integer(1 if lv - nv == kv else 0)
+                    if t_.free_symbols or not is_zero(t_ - want):
+                        if len(probs) < 3:
+                            probs.append('N=%d: W[%d][%d] = %s, expected %s' % (nv, kv, lv, t_, want))
+    except Undecided as ex_:
+        ctx.undecided(R, 'Inverse:augmentation', inv, 'augmentation loops outside the understood fragment: %s' % ex_)
+        probs = None
+    if probs is not None:
+        ctx.decide(R, 'Inverse:augmentation', inv, not probs, 'work array is [M | I] (all elements for N = 1, 2, 3 from the loop summary)',
+                   'augmentation is not [M | I]: ' + '; '.join(probs), witness={'elements': probs} if probs else None)
     # final scaling: W[i][j] = W[i][j] / W[i][i] for j in [N, 2N)
     oksc = False
     for n, outer, w2, v, stack in scale:
